@@ -17,14 +17,7 @@ D16_SIG = 'doc-rejects-checker-accepts:instantiate-or-substitution-result-not-we
 
 
 def regen():
-    sys.path.insert(0, os.path.join(C.VERIF, 'translators'))
-    import opcodes
-    try:
-        text = opcodes.generate(C.REPO)
-    except SystemExit as e:
-        return False, str(e)
-    C.write_if_changed(os.path.join(C.COQ, 'Gen', 'Opcodes.v'), text)
-    return True, ''
+    return T.regen_gen()
 
 
 def setup():
